@@ -1,10 +1,23 @@
-"""Property registry: which rules decide which property, and the text that goes to the evidence."""
-from .rules import facade, stateless, facadevm
+"""Property registry: which rules decide which property, and the text that goes to the evidence and MANIFEST.json.
+
+Rule families (DESIGN.md §10):
+  A*   lexical rules: the source (HIR) of each interpreter's apply / apply_decimal / lemmatize / get_morph_marker /
+       format_* / basic_annotate is evaluated on the constants of the reference lexicon and grammar tables, the digit
+       builder being an abstract state                                                         (rules/lexeval.py, lexical.py)
+  V*   abstract-machine rules: the MIR of the scanner, tokenizer, rewriter, digit builder, facade and code table is
+       interpreted against a finite abstraction of its environment; every case of the abstraction up to a bounded
+       length is tabulated and the property's clauses are predicates over those tables          (vm.py, rules/*vm.py)
+  B*   MIR dataflow rules: panic-site inventory + prover, write-before-Err reachability, frozen-first dominance, loop
+       progress, raw-case taint, scratch-builder typestate                                     (rules/panics.py, builder.py, ...)
+  C*   type-level / inventory rules: trait-solver obligations, statics, effect inventory       (rules/stateless.py, facade.py)
+"""
+from .rules import (builder, dsvm, facade, facadevm, lexeval, lexical, panics, progress, scanner, scanvm, stateless,
+                    textflow, textvm)
 
 TRUST_COMMON = [
     'rustc nightly 1.97 front end (name resolution, type check, MIR construction) — the facts',
     'the fact serialiser /verif/driver (no judgement, prints what rustc resolved)',
-    'the Python rule engine /verif/analysis',
+    'the Python rule engine /verif/analysis, incl. its MIR/HIR evaluators (vm.py, peval.py) and their models of the std functions used',
 ]
 
 ASSUME_COMMON = [
@@ -12,6 +25,9 @@ ASSUME_COMMON = [
     'library target only (cfg(test) modules and doctests are not analysed)',
     'dependencies (std, phf, daachorse, bitflags) are trusted by signature, not analysed',
 ]
+
+MACHINE = ('Bounded: the case tables of the abstract machine are complete up to the stated script length over the stated class alphabet; '
+           'a violation that needs a longer script, or a distinction the abstraction does not make, is not seen.')
 
 
 class Prop:
@@ -25,268 +41,206 @@ class Prop:
 
 
 PROPS = {}
-
-
-def reg(p):
-    PROPS[p.pid] = p
-
-
-reg(Prop('C13', 'proof',
-         [facade.rule_delegation, facade.rule_constructors, facadevm.rule_iso_vm, facade.rule_no_downcast],
-         'Decides the whole statement structurally. C-DELEGATION: every trait method that any concrete interpreter '
-         'defines is defined by `impl LangInterpreter for Language` as `match self` with exactly one arm per variant, '
-         'each arm calling the same-named trait method on the bound payload (resolved by rustc to that payload type\'s '
-         'impl) with the facade\'s own parameters in order and returning the result unchanged. C-CTOR: Language::x() '
-         'wraps <X as Default>::default() in variant X and X::new() is the same default. C-ISO: the code table maps '
-         'de,en,es,fr,it,nl,pt to exactly those constructors, nothing else resolves, the parameter is matched '
-         'unnormalised, the default arm is None. C-NO-DOWNCAST: no type-identity dispatch. Since every API function is '
-         'generic over L: LangInterpreter and reaches the language only through trait methods, the facade and the '
-         'concrete type perform identical calls for every input.',
-         trusted=['ISO 639-1 table frozen in rules/facade.py']))
-
-reg(Prop('C14', 'proof',
-         [stateless.rule_types, stateless.rule_statics, stateless.rule_effects],
-         'Decides the whole statement modulo dependencies. (i) the seven interpreters and Language are Freeze, Send and '
-         'Sync according to rustc\'s trait solver; every LangInterpreter method takes &self, so no call can modify the '
-         'interpreter; (ii) no static mut, no interior-mutable or thread-local static, no user-written unsafe; (iii) the '
-         'complete callee inventory of the library MIR contains no effectful callee (std::io incl. _print/_eprint used '
-         'by print!/dbg!, fs, env, time, process, net, thread, sync, cell, rand, raw pointers, FFI) and no indirect or '
-         'unclassified call. With no mutable state reachable and no effect, each result is a function of the call\'s '
-         'arguments; with Send+Sync interpreters may be shared across threads.',
-         trusted=['std / phf / daachorse / bitflags bodies keep no hidden global state and do not print on the calls made']))
-
-
-# ---------------------------------------------------------------------------------------
-# texts for MANIFEST.json (tools/gen_manifest.py)
-
 MANIFEST_TEXT = {}
 NOT_APPLICABLE = {}
 
 
-def mtext(pid, text, note, technique, design_ref):
+def reg(pid, level, rules, explanation, text, note, technique, design_ref, assumptions=(), trusted=()):
+    PROPS[pid] = Prop(pid, level, rules, explanation, assumptions, trusted)
     MANIFEST_TEXT[pid] = {'text': text, 'note': note, 'technique': technique, 'design_ref': design_ref}
-
-
-mtext('C13',
-      'Proof by exhaustive structural obligations: the statement reduces completely to facts visible in the code '
-      '(verbatim delegation per method and variant, constructor/variant/payload agreement, the code table). 56 delegation + '
-      '14 constructor + 7 code obligations + default arm + no-normalisation + no-downcast are each checked on rustc\'s '
-      'resolved HIR; all must be discharged.',
-      'Trusted: rustc name resolution/type check (facts), the fact serialiser, the Python rules, the frozen ISO 639-1 table. '
-      'Closed world: user-written interpreters are outside the claim.',
-      'static analysis: HIR shape/obligation check of the delegate match arms and the ISO table on type-resolved callees',
-      'DESIGN.md §2 Family C, §4 C13')
-mtext('C14',
-      'Proof modulo dependencies: Freeze/Send/Sync obligations answered by rustc\'s trait solver for the seven interpreters '
-      'and Language, &self receivers, absence of mutable/interior-mutable/thread-local statics and of user unsafe, and a '
-      'complete effect inventory (every call site of the library MIR classified; no effectful, indirect or unclassified callee).',
-      'Trusted: std, phf, daachorse, bitflags keep no hidden global state and do not print on the calls made (their bodies are '
-      'outside the crate\'s MIR); the trait solver\'s answers; the callee classification table in analysis/t2n/callees.py.',
-      'static analysis: trait-solver obligations (Freeze/Send/Sync) + whole-crate MIR effect inventory + static/unsafe inventory',
-      'DESIGN.md §2 Family C, §4 C14')
-
-from .rules import builder, dsvm  # noqa: E402
-
-reg(Prop('C12', 'other',
-         [dsvm.rule_builder_cases, builder.rule_fail_atomic, builder.rule_frozen_first],
-         'Decides structural clauses of the digit builder on its MIR, for symbolic arguments (public API): B3 no write through '
-         'self can be followed by an Err exit in put/put_digit_at/push/fput/shift (failed operations change nothing; one named '
-         'exception, the implicit-one push of shift, with its premises checked); B4 every mutator tests self.frozen on an edge '
-         'dominating every write and returns Err(Frozen); B5 overwrites are dominated by the free-slot test of the same range / '
-         'position, zeros are counted only on an empty buffer for the digit "0", all-zero input is refused, who-writes '
-         'leading_zeroes/frozen; B6 reset covers all fields, len/is_empty/to_string read buffer and leading_zeroes; B1 every '
-         'panic-capable site of the DigitString methods is discharged without assuming anything about callers (difference-'
-         'constraint prover over dominating branch facts, or a named instance whose guards are checked to dominate). '
-         'Does NOT decide the arithmetic meaning of put/shift (value after each step, "no digit lost"): that is a functional-'
-         'correctness statement about byte arrays, outside static analysis.',
-         assumptions=['arguments are ASCII digits and positions < 2^31 (stated bound of the property)']))
-
-from .rules import panics, progress  # noqa: E402
 
 
 def _c03_sites(ctx, rep):
     panics.rule_panic_sites(ctx, rep, 'C03')
 
 
-def _c03_premises(ctx, rep):
-    """Premises the named (D6) instances of NumTracker::replace / number_advanced rely on: spans are enumerate
-    indices, closed after each number, emitted once and in stream order."""
-    from .rules import scanvm
-    scanvm.rule_scanner_total(ctx, rep)
-    scanvm.rule_occurrence_wellformed(ctx, rep)
-    scanvm.rule_replace_tokenwise(ctx, rep)
-
-
 def _c12_sites(ctx, rep):
     panics.rule_panic_sites(ctx, rep, 'C12')
 
 
-reg(Prop('C03', 'other', [_c03_sites, panics.rule_nonempty_format, panics.rule_digit_args, progress.rule_loops, progress.rule_recursion, _c03_premises],
-         'Decides totality structurally: B1 the complete inventory of panic-capable sites in the library MIR (Assert terminators '
-         '+ calls to partial callees such as unwrap, index, copy_from_slice, drain) with each site discharged by D1 a dominating '
-         'guard (difference-constraint prover over branch facts), D3 constant arguments at every in-crate call site, D4 non-empty '
-         'dominance for the float parse in format_and_value, D5 constant constructor input, or D6 a named instance whose guards '
-         'are checked to dominate; B2 every natural loop consumes from an iterator on every cycle and the recursion inventory '
-         'equals the confirmed bounded set (apply/exec_group over strictly shorter pieces; WordSplitIterator::next depth <= 2). '
-         'Thresholds need no rule: f64 comparison is total. Out of scope: panics inside std/daachorse/phf on valid arguments, '
-         'allocation failure, stack exhaustion on adversarially long words.',
-         assumptions=['token iterators supplied by the caller are finite', 'callee partiality table analysis/t2n/callees.py is complete for the callees used']))
-PROPS['C12'].rules.append(_c12_sites)
+T_LEX = 'static analysis: partial evaluation of the interpreter source (HIR) on lexicon / grammar-table constants with an abstract digit builder'
+T_VM = 'static analysis: abstract interpretation of rustc MIR against a finite abstraction of the environment, complete bounded case tables'
 
-mtext('C03',
-      'Static totality argument over code sites, not inputs: every panic-capable site reachable in the library MIR is enumerated '
-      '(100 on this tree) and discharged by a dominance-based rule or a named, guard-checked instance; loops and recursion are '
-      'shown to make progress. This is close to the whole statement modulo the trusted base; it is `other` rather than `proof` '
-      'because 44 D6 instances rest on one-line hand arguments (their premises are machine-checked, the arithmetic is not).',
-      'Trusted: std/daachorse/phf do not panic on valid arguments; the partial-callee table; the D6 table tables/panic_sites.json '
-      '(each entry: guards checked mechanically, argument by hand); allocation failure and stack exhaustion out of scope.',
-      'static analysis: MIR panic-site inventory + dominator/edge-fact difference-constraint prover + call-site constant and non-empty dominance rules + loop/recursion progress',
-      'DESIGN.md §2 B1 B2, §4 C03')
-mtext('C12',
-      'Structural clauses of the builder decided on MIR for symbolic arguments: failure atomicity (no write before a possible Err), '
-      'frozen-first, guarded overwrites and zero counting, field coverage of reset/len/is_empty/to_string, and panic-freedom of every '
-      'public method. Each is a necessary condition of the property; the arithmetic meaning of place/shift is not decided.',
-      'Not decided: value semantics of put/shift ("multiplies the rightmost group by 10^p", "keeps every non-zero digit"). Assumes ASCII-digit '
-      'arguments and positions < 2^31.',
-      'static analysis: MIR mutation/dominance analysis (write-before-Err reachability, guard dominance, who-writes) + panic-site prover',
-      'DESIGN.md §2 B1 B3 B4 B5 B6, §4 C12')
-
-from .rules import scanner, scanvm, textvm  # noqa: E402
-
-
-def _arm_atomic(ctx, rep):  # A8b, evaluation based
-    from .rules import lexeval
-    lexeval.rule_reject_inert(ctx, rep)
-
-
-def _policy_table(ctx, rep):
-    from .rules import policy
-    policy.rule_policy_table(ctx, rep)
-
-
-def _sep_mark(ctx, rep):
-    from .rules import lexeval
-    lexeval.rule_sep_mark(ctx, rep)
-
-reg(Prop('C15', 'other', [scanvm.rule_lazy_batch, scanvm.rule_token_hints],
-         "Decides the driver structure of the token-stream contract on MIR: B14-SCANNER (FindNumbers::push) — \"-\" and whitespace tokens return before any state is touched; a not_a_number_part token can reach neither parser.push nor number_advanced, ends the number in progress and still updates `previous`; the word presented to the parser is the token's lowercase text or the constant \",\", the latter exactly under has_number() && nt_separated(previous); number_advanced is reachable only from Ok edges with the unmodified enumerate position; Err(Incomplete) neither advances, ends nor breaks; reject -> number_end -> retry with the token's own text; `previous` updated on every other path. B14-ITERATOR — lazy and batch drivers call the same push/finalize with the same arguments, the iterator tests has_matches() before reading and after every single token and returns pop() when true, finalizes on exhaustion, nothing is read by the constructor, the stream is read only by Iterator::next and track_numbers, both drain FIFO (pop_front / into over a push_back-only queue). Does NOT decide equality of the two result sequences for all streams nor the exact look-ahead bound (run-time quantities of the hold/release automaton)."))
-reg(Prop('C06', 'other', [scanvm.rule_occurrence_wellformed, _sep_mark, scanvm.rule_decimal_scanner],
-         "Decides the construction discipline of occurrences: B13 — Occurence is built at exactly one site with start/end copied from match_start/match_end and text/value/is_ordinal from the parameters; FindNumbers::number_end reads parser.is_ordinal() before string_and_value() (which resets) and passes the two components of that one result; number_advanced sets match_end = pos + 1 on every path and match_start only for an empty span; number_end closes the span on every path; FindNumbers::new is private and both callers pass input.enumerate(). B7-DECIMAL-ENTRY — decimal mode is entered only for a rejected word, not already decimal, non-empty non-ordinal integer part, separator word, and returns Incomplete (decimal xor ordinal). B7-RESET-MUST — the decimal formatter runs iff is_dec && !dec_part.is_empty(), with (int_part, dec_part). From these checked facts spans are increasing, disjoint, in-stream and begin/end on accepted word tokens (hand argument: match_start <= pos < match_end, match_start := match_end after each number). Does NOT decide value = read(text) numerically (std float parsing) nor numeral shape of the formatted text (see C04/C05 template rules)."))
-reg(Prop('C10', 'other', [scanvm.rule_fresh_start, scanner.rule_scratch_hygiene, dsvm.rule_builder_cases],
-         "Decides the absence of the carriers of cross-talk: B7-RESET-MUST (every path through string_and_value resets the parser after formatting), B6 (DigitString::reset covers all five fields; WordToDigitParser::reset covers all fields but lang), B7-SCRATCH-HYGIENE (typestate over the annotation passes: a scratch builder is Fresh whenever handed to apply, Dirty on a success edge until reset — the breach behind `du 109` vs `du 100 neuf`). Together with C09's B16 (a breaker forgets the last kind; on_hold is overwritten or taken on every path of number_end) nothing said several words earlier can reach a later number. Does NOT decide rewrite(A S B) = rewrite(A) S rewrite(B) itself, a relational property over pairs of runs."))
-reg(Prop('C07', 'other', [scanner.rule_shared_interpreter, _arm_atomic, builder.rule_fail_atomic, scanvm.rule_scanner_validator],
-         "Decides the mechanisms behind scanner/validator agreement: B15 (one interpreter, two drivers: apply is called only from exec_group, WordToDigitParser::push, the facade, the apply_decimal forwarders and the annotation passes; text2digits = exec_group over the lowercased, whitespace-split text + format_and_value), B3 (a rejected builder operation leaves no digits behind — the breach behind '1000000001 1000000000'), B14-SCANNER (reject -> number_end -> retry on the reset parser with the token's own text; Incomplete never advances a span so no span ends on a dangling conjunction), B7-RESET-MUST (the parser is reset by string_and_value before the retry). Does NOT decide the converse direction (every validated phrase is scanned as one number) nor threshold-0 completeness: both compare two run-time traversals of the word table."))
-
-from .rules import textflow  # noqa: E402
-
-reg(Prop('C11', 'other', [textflow.rule_case_flow, scanner.rule_shared_interpreter, scanvm.rule_case_scanner],
-         "Decides B9 CASE-FLOW: at every vocabulary-lookup call site of the scanner, parser and annotation passes (apply, apply_decimal, is_linking, is_decimal_sep, get_morph_marker, WordToDigitParser::push) the word argument derives from text_lowercase()/to_lowercase(), a constant, or a parameter whose callers are checked; raw Token::text() flows only into case-blind uses (== \"-\", whitespace / alphabetic classification, trim() != \".\"); vocabulary literals in the annotation passes are compared with lowercase text; BasicToken.lowercase is only ever built from to_lowercase() and text_lowercase returns it; the validator lowercases the phrase before exec_group. Does NOT decide Unicode case-mapping corner cases nor user Token impls returning non-lowercase text."))
-reg(Prop('C17', 'other', [textflow.rule_ws_api, textvm.rule_tokenizer, scanvm.rule_ws_scanner],
-         "Decides B10 WS-API (no ASCII-only whitespace facility — is_ascii_whitespace, split_ascii_whitespace, trim_ascii, split/trim on a single whitespace character literal, as call or as function item — anywhere in the library; the four classification sites resolve to the Unicode predicates) and B11 TOKENIZER-TILING (separator tokens are maximal non-alphanumeric runs, so any whitespace run stays inside one separator token, is skipped whole by the scanner's is_whitespace and is passed through verbatim). Does NOT decide invariance for mixed whitespace+punctuation separators in every context."))
-reg(Prop('C02', 'other', [textvm.rule_tokenizer, textvm.rule_text_rewrite, scanvm.rule_replace_tokenwise],
-         "Decides the three mechanisms of locality: B11 (match_word/match_sep return the position of the un-consumed peeked character or source.len(), Tokenize::next slices source[pos..end] unmodified and BasicToken stores it verbatim: tokens tile the input), B12 (occurrence spans are replaced by drain(start..end) + insert(start) in reverse order on the same vector, the drained tokens and the text go to Replace::replace unchanged; replace_numbers_in_stream scans input.iter() and replaces in that same input; replace_numbers_in_text is tokenize -> basic_annotate -> replace_numbers_in_stream -> join(\"\"); annotation passes only read the vector and mark through set_nan), B13 (spans come from enumerate indices). Does NOT decide equality replace_text(s,t) = splice(tokens, find_numbers(..)) as a whole for arbitrary UTF-8 (needs span correctness for all streams)."))
-
-from .rules import policy  # noqa: E402
-
-reg(Prop('C09', 'other', [scanvm.rule_lone_policy],
-         "Decides: B8 — the threshold field is never written after construction and read exactly once, as the right operand of a strict `value < threshold` conjoined with (one digit || ordinal) (the constant-false branch is taken exactly when neither); the flag is only passed to NumTracker::number_end where it is branched on once: true can only hold a number, false can only emit it — hence recognition is independent of the threshold, rewriting is monotone in it and t <= 0 or NaN rewrites everything (values are parses of digit strings, >= 0). B16 — the loop-free hold/release function is evaluated on all 24 finite-domain cases (last kind x held x ordinal x small) by an abstract interpreter over its MIR and compared with the table the statement prescribes; sequence_breaker only forgets the last kind. B8-BREAKER — the 8-row truth table of outside_number's condition over its three atoms (no alphabetic char, not a lone period, linking word). Does NOT decide the iff-characterisation of `isolated` over whole token streams (iterating the checked per-step table over unbounded streams is model checking)."))
-
-mtext('C15',
-      'Decides named structural clauses (necessary conditions) of the property from the type-resolved MIR of the current tree; see the evidence explanation for the clause list. Level `other`: the compositional behaviour over all inputs is not decided.',
-      'Undecided clauses are listed at the end of the explanation in the evidence file and in DESIGN.md §4. Trusted: rustc facts, the rule engine, std/daachorse/phf by signature; closed world (user trait impls outside the claim).',
-      'static analysis: MIR path/dominance rules on FindNumbers::push, Iterator::next and track_numbers (must-pass-through, reachability between resolved call sites, edge facts)',
-      'DESIGN.md §2 B14, §4 C15')
-
-mtext('C06',
-      'Decides named structural clauses (necessary conditions) of the property from the type-resolved MIR of the current tree; see the evidence explanation for the clause list. Level `other`: the compositional behaviour over all inputs is not decided.',
-      'Undecided clauses are listed at the end of the explanation in the evidence file and in DESIGN.md §4. Trusted: rustc facts, the rule engine, std/daachorse/phf by signature; closed world (user trait impls outside the claim).',
-      'static analysis: MIR provenance rules: single construction site, field provenance by value descriptors, dominance ordering of is_ordinal before string_and_value, guard dominance of decimal-mode entry',
-      'DESIGN.md §2 B13 B7, §4 C06')
-
-mtext('C10',
-      'Decides named structural clauses (necessary conditions) of the property from the type-resolved MIR of the current tree; see the evidence explanation for the clause list. Level `other`: the compositional behaviour over all inputs is not decided.',
-      'Undecided clauses are listed at the end of the explanation in the evidence file and in DESIGN.md §4. Trusted: rustc facts, the rule engine, std/daachorse/phf by signature; closed world (user trait impls outside the claim).',
-      'static analysis: MIR must-pass-through (reset), field-coverage inventory, typestate dataflow over scratch builders of the annotation passes',
-      'DESIGN.md §2 B6 B7, §4 C10')
-
-mtext('C07',
-      'Decides named structural clauses (necessary conditions) of the property from the type-resolved MIR of the current tree; see the evidence explanation for the clause list. Level `other`: the compositional behaviour over all inputs is not decided.',
-      'Undecided clauses are listed at the end of the explanation in the evidence file and in DESIGN.md §4. Trusted: rustc facts, the rule engine, std/daachorse/phf by signature; closed world (user trait impls outside the claim).',
-      'static analysis: who-may-call inventory of apply + write-before-Err reachability in DigitString + MIR ordering rules of the scanner',
-      'DESIGN.md §2 B15 B3 B14, §4 C07')
-
-mtext('C11',
-      'Decides named structural clauses (necessary conditions) of the property from the type-resolved MIR of the current tree; see the evidence explanation for the clause list. Level `other`: the compositional behaviour over all inputs is not decided.',
-      'Undecided clauses are listed at the end of the explanation in the evidence file and in DESIGN.md §4. Trusted: rustc facts, the rule engine, std/daachorse/phf by signature; closed world (user trait impls outside the claim).',
-      'static analysis: value-descriptor flow check (taint by provenance) from Token::text()/to_lowercase() to vocabulary-lookup call sites',
-      'DESIGN.md §2 B9, §4 C11')
-
-mtext('C17',
-      'Decides named structural clauses (necessary conditions) of the property from the type-resolved MIR of the current tree; see the evidence explanation for the clause list. Level `other`: the compositional behaviour over all inputs is not decided.',
-      'Undecided clauses are listed at the end of the explanation in the evidence file and in DESIGN.md §4. Trusted: rustc facts, the rule engine, std/daachorse/phf by signature; closed world (user trait impls outside the claim).',
-      'static analysis: callee/function-item inventory against banned ASCII-whitespace facilities + tokenizer shape rules',
-      'DESIGN.md §2 B10 B11, §4 C17')
-
-mtext('C02',
-      'Decides named structural clauses (necessary conditions) of the property from the type-resolved MIR of the current tree; see the evidence explanation for the clause list. Level `other`: the compositional behaviour over all inputs is not decided.',
-      'Undecided clauses are listed at the end of the explanation in the evidence file and in DESIGN.md §4. Trusted: rustc facts, the rule engine, std/daachorse/phf by signature; closed world (user trait impls outside the claim).',
-      'static analysis: MIR shape/provenance rules on the tokenizer, NumTracker::replace and the rewrite pipeline; mutation inventory of the annotation passes',
-      'DESIGN.md §2 B11 B12 B13, §4 C02')
-
-mtext('C09',
-      'Decides named structural clauses (necessary conditions) of the property from the type-resolved MIR of the current tree; see the evidence explanation for the clause list. Level `other`: the compositional behaviour over all inputs is not decided.',
-      'Undecided clauses are listed at the end of the explanation in the evidence file and in DESIGN.md §4. Trusted: rustc facts, the rule engine, std/daachorse/phf by signature; closed world (user trait impls outside the claim).',
-      'static analysis: field read/write inventory + guard facts for the threshold; finite-domain abstract interpretation of NumTracker::number_end (24 cases) and of the breaker condition (8 rows)',
-      'DESIGN.md §2 B8 B16, §4 C09')
-
-from .rules import lexical, lexeval  # noqa: E402
-
-reg(Prop('C01', 'other', [lexeval.rule_lex_card, lexical.rule_scale_contexts, lexical.rule_compose_contexts, lexeval.rule_split_closure, lexeval.rule_zero_arm, lexeval.rule_conj, lexeval.rule_neg_contexts],
-         "Decides the lexical mechanism of the cardinal round-trip: A1 — every core cardinal form of the frozen reference lexicon (7 languages, ~330 forms incl. plural/inflected scale words, regional tens, national variants) selects, through partial evaluation of the language's lemmatizer source, an arm of the word table whose placing leaves are exactly the instruction its class prescribes for its value (put of its digits; de/nl tens put_digit_at(d,1); lexical hundreds put d00; hundred/thousand/million/milliard shift 2/3/6/9; it mille put 1000; fr vigesimal triples with the 60/80/4 predecessor tests), and apply(word) evaluated on an abstract fresh builder returns Ok with that one instruction; A3 — splitter patterns and arm keys agree (every pattern has an arm, every compounding word is a pattern, patterns non-empty and distinct) and every piece of every generated compound spelling (de/it/nl, n <= 999 quick, <= 9999 thorough) selects an arm; A6 zero arms; A7 scale-word guards (3,5)/(6,8) and the unit/tens separation guards. Does NOT decide that the composition of correct instructions yields decimal(n) for every n < 10^12 and context, nor 'never split in two': that depends on run-time buffer contents."))
-reg(Prop('C04', 'other', [lexeval.rule_lex_ord, lexical.rule_group_ordinal, lexeval.rule_split_closure, builder.rule_frozen_first, lexeval.rule_sep_mark],
-         "Decides the lexical mechanism of the ordinal round-trip: A2 — every core ordinal form and inflection of the reference lexicon (~750 forms) selects an arm whose placing leaves equal those of the cardinal of its rank; apply(form) evaluated on an abstract fresh builder (es 'segundo' after an ordinal) returns Ok, sets marker = Ordinal(<expected marker for that inflection>) — which evaluates the source of get_morph_marker and of the postlude on the form — and freezes the builder where the language does so; A3 closure for compound stems; B4 a frozen builder refuses every further word; A5 format_and_value renders digits followed by the marker. Does NOT decide the composition for every rank up to 10^6 (same reason as C01)."))
-reg(Prop('C05', 'other', [lexeval.rule_dec_table, lexeval.rule_sep_mark, scanvm.rule_decimal_scanner, dsvm.rule_builder_cases],
-         "Decides: A4 (en/de decimal tables map each digit word to push(b\"d\"), zero synonyms share an arm, default NaN; fr/es/pt/it/nl apply_decimal forwards to apply verbatim), A5 (is_decimal_sep evaluates to true exactly on the separator word; the text template is {int}<mark>{dec} with mark '.' for English and ',' otherwise, filled with int.to_string(), dec.to_string() in that order; the value is the parse of {int}.{dec} of the same strings), B7-DECIMAL-ENTRY (decimal mode entered only for a rejected word, not already decimal, non-empty non-ordinal integer part, separator word; returns Incomplete — a separator with no number before it stays a word), B7-RESET-MUST (decimal formatter iff is_dec && !dec_part.is_empty(), otherwise the integer: nothing usable after the separator falls back to the integer; parser reset on every path), B6. Does NOT decide that arbitrary integer x fraction shapes round-trip (the fractional grammar of five languages goes through apply, i.e. C01's composition)."))
-reg(Prop('C08', 'other', [lexeval.rule_neg_contexts, lexical.rule_block_contexts, lexeval.rule_flags_lifecycle, lexeval.rule_conj, lexeval.rule_zero_arm, dsvm.rule_builder_cases],
-         "Decides A7 GUARD-ATOMS: every arm of each sibling class carries the class guard and side assignments that keep adjacent numbers apart (en units peek(2) != 10; es additionally != 20; pt units/teens/tens !smaller_blocked, hundreds !only_multipliers with the flag definitions and three-way flag update; it units peek(2) != 10, un*/otto* is_free(2), ordinal stems is_empty; de/nl units is_free(2) + to_block = TENS, tens !blocked(TENS); fr un..six guarded by their own Excludable bit, dix sets UN_SIX, tens set UN; thousand is_range_free(3,5), million (6,8); success stores / failure clears the flags), A10 (the conjunction is only ever Err(Incomplete) under the class guard), A6 (zero arms), B5 (overlap refusal and zero-only-while-empty inside the builder). Does NOT decide the 10^4-pair outcome table per language nor the grouping of dictated digit strings (needs execution of the guards on concrete buffers)."))
-reg(Prop('C16', 'other', [lexeval.rule_zero_arm, lexical.rule_zero_invariance, dsvm.rule_builder_cases],
-         "Decides: A6 (zero words select an unguarded put(b\"0\"), synonyms share the arm), B5 (a zero is accepted only on an empty buffer and counted; all-zero input refused otherwise), B6 (len/is_empty/to_string include the zero count, is_null does not; reset clears it), A9 (no guard or arm condition tests DigitString::len() for equality with a constant — the zero-sensitive single-digit test behind the rejected 'zero un milione'). Does NOT decide convert(zero^k spell(n)) = 0^k decimal(n) for all n (C01's composition)."))
-
-reg(Prop('C18', 'other', [lexeval.rule_o_annotate, lexeval.rule_zero_arm, lexeval.rule_dec_table, scanner.rule_scratch_hygiene, scanvm.rule_token_hints],
-         "Decides: 'o' is a pattern of the very arm of 'zero' in apply and apply_decimal (treated exactly like zero); English::basic_annotate has the shape: candidate = tokens[i] with lowercase text \"o\"; it is marked not-a-number (the only set_nan in the pass) exactly in the else-branch of `(j > 0 && apply(tokens[S[j-1]]).is_ok()) || (j+1 < S.len() && apply(tokens[S[j+1]]).is_ok())` where S = indices of tokens that are not whitespace-only (Unicode predicate; punctuation counts as neighbour) and j enumerates S; the scratch builder is fresh at each apply (B7-SCRATCH-HYGIENE) and marked tokens never enter an occurrence (B14 S2). Does NOT decide the full neighbour-combination table, in particular neighbours that apply accepts only in some builder states."))
-
-mtext('C01',
-      "Decides named structural clauses (necessary conditions) of the property from the type-resolved HIR/MIR of the current tree against a frozen reference lexicon (lexicon/*.json, written from the languages' numeral systems, not from the repository); see the evidence explanation for the clause list. Level `other`: the compositional behaviour over all numbers and contexts is not decided.",
-      'Undecided clauses are listed at the end of the explanation in the evidence file and in DESIGN.md §4. A lexicon error is a checker error: every entry failing on the tree was triaged by hand (tree wrong -> fix: commit; doubtful -> variant tier). Trusted: rustc facts, rule engine, reference lexicons, daachorse leftmost-longest semantics.',
-      'static analysis: HIR word-table extraction + partial evaluation of lemmatize/apply on the constants of a frozen reference lexicon; splitter-pattern/arm-key agreement over generated compounds',
-      'DESIGN.md §2 A1 A3 A6 A7, §3, §4 C01')
-
-mtext('C04',
-      "Decides named structural clauses (necessary conditions) of the property from the type-resolved HIR/MIR of the current tree against a frozen reference lexicon (lexicon/*.json, written from the languages' numeral systems, not from the repository); see the evidence explanation for the clause list. Level `other`: the compositional behaviour over all numbers and contexts is not decided.",
-      'Undecided clauses are listed at the end of the explanation in the evidence file and in DESIGN.md §4. A lexicon error is a checker error: every entry failing on the tree was triaged by hand (tree wrong -> fix: commit; doubtful -> variant tier). Trusted: rustc facts, rule engine, reference lexicons, daachorse leftmost-longest semantics.',
-      'static analysis: HIR word-table + partial evaluation of get_morph_marker and the apply postlude on every ordinal form of the reference lexicon; frozen-first MIR rule',
-      'DESIGN.md §2 A2 A3 B4, §4 C04')
-
-mtext('C05',
-      "Decides named structural clauses (necessary conditions) of the property from the type-resolved HIR/MIR of the current tree against a frozen reference lexicon (lexicon/*.json, written from the languages' numeral systems, not from the repository); see the evidence explanation for the clause list. Level `other`: the compositional behaviour over all numbers and contexts is not decided.",
-      'Undecided clauses are listed at the end of the explanation in the evidence file and in DESIGN.md §4. A lexicon error is a checker error: every entry failing on the tree was triaged by hand (tree wrong -> fix: commit; doubtful -> variant tier). Trusted: rustc facts, rule engine, reference lexicons, daachorse leftmost-longest semantics.',
-      'static analysis: decimal word-table check, partial evaluation of is_decimal_sep, format-template check on the pre-lowering AST, MIR guard dominance of decimal-mode entry/exit',
-      'DESIGN.md §2 A4 A5 B7, §4 C05')
-
-mtext('C08',
-      "Decides named structural clauses (necessary conditions) of the property from the type-resolved HIR/MIR of the current tree against a frozen reference lexicon (lexicon/*.json, written from the languages' numeral systems, not from the repository); see the evidence explanation for the clause list. Level `other`: the compositional behaviour over all numbers and contexts is not decided.",
-      'Undecided clauses are listed at the end of the explanation in the evidence file and in DESIGN.md §4. A lexicon error is a checker error: every entry failing on the tree was triaged by hand (tree wrong -> fix: commit; doubtful -> variant tier). Trusted: rustc facts, rule engine, reference lexicons, daachorse leftmost-longest semantics.',
-      'static analysis: sibling-class guard-atom check over the HIR arm tables (normalised guard atoms and side assignments) + builder write guards on MIR',
-      'DESIGN.md §2 A7 A10 A6 B5, §4 C08')
-
-mtext('C16',
-      "Decides named structural clauses (necessary conditions) of the property from the type-resolved HIR/MIR of the current tree against a frozen reference lexicon (lexicon/*.json, written from the languages' numeral systems, not from the repository); see the evidence explanation for the clause list. Level `other`: the compositional behaviour over all numbers and contexts is not decided.",
-      'Undecided clauses are listed at the end of the explanation in the evidence file and in DESIGN.md §4. A lexicon error is a checker error: every entry failing on the tree was triaged by hand (tree wrong -> fix: commit; doubtful -> variant tier). Trusted: rustc facts, rule engine, reference lexicons, daachorse leftmost-longest semantics.',
-      'static analysis: zero-arm shape check, inventory of equality tests on DigitString::len() in guards, builder zero-counting rules on MIR',
-      'DESIGN.md §2 A6 A9 B5 B6, §4 C16')
-
-mtext('C18',
-      "Decides named structural clauses (necessary conditions) of the property from the type-resolved HIR/MIR of the current tree against a frozen reference lexicon (lexicon/*.json, written from the languages' numeral systems, not from the repository); see the evidence explanation for the clause list. Level `other`: the compositional behaviour over all numbers and contexts is not decided.",
-      'Undecided clauses are listed at the end of the explanation in the evidence file and in DESIGN.md §4. A lexicon error is a checker error: every entry failing on the tree was triaged by hand (tree wrong -> fix: commit; doubtful -> variant tier). Trusted: rustc facts, rule engine, reference lexicons, daachorse leftmost-longest semantics.',
-      'static analysis: HIR shape check of English::basic_annotate under alpha-renaming + arm identity of "o" and "zero" + scratch typestate',
-      'DESIGN.md §4 C18')
+# ------------------------------------------------------------------------------------------------------------------
+reg('C01', 'other',
+    [lexeval.rule_lex_card, lexical.rule_scale_contexts, lexical.rule_compose_contexts, lexeval.rule_split_closure, lexeval.rule_zero_arm,
+     lexeval.rule_conj, lexeval.rule_neg_contexts],
+    "Decides the lexical mechanism of the cardinal round-trip by evaluating each language's apply (and what it calls: lemmatizer, splitter model, "
+    "flags) on the frozen reference lexicon: A1 every core cardinal form (7 languages, ~350 forms incl. plural/inflected scale words, regional "
+    "tens, national variants) is accepted on the builder state its class requires and issues exactly the instruction its value prescribes (put of "
+    "its digits; de/nl tens put_digit_at; scale words shift 2/3/6/9/12; French vigesimal forms on 60/80/4); A1b every scale word after every "
+    "multiplier of the grammar table, refused after the forbidden ones; A1c every (first word, following class) pair the grammar composes is "
+    "accepted; A3 splitter patterns and known words agree and every piece of every generated compound spelling (de/it/nl, n <= 999 quick, <= 9999 "
+    "thorough) is a known word; A6 zero words; A10 the conjunction is Incomplete after each word it may follow; A7 the contexts that must be refused "
+    "(never split / never fused needs both). Does NOT decide that the composition of correct instructions yields decimal(n) for every n < 10^12 "
+    "in every sentence context.",
+    'Lexical mechanism of the round-trip decided by evaluating the interpreter source on ~350 cardinal forms x the builder states of the grammar '
+    'tables; the digit arithmetic of the composition is left to C12\'s builder clauses.',
+    'Not decided: the full composition for every n < 10^12 (run-time buffer contents). The reference lexicons /verif/lexicon/*.json are the oracle.',
+    T_LEX, 'DESIGN.md §10.2, §3')
+reg('C02', 'other',
+    [textvm.rule_tokenizer, textvm.rule_text_rewrite, scanvm.rule_replace_tokenwise],
+    "V02-TOKENIZER: tokenizer::tokenize interpreted on every string up to length 4 (5 thorough) over one representative per (char class x UTF-8 "
+    "width): tokens concatenate to the input, are non-empty, alternate word/separator, lowercase form = lowercased text, no slice off a char boundary. "
+    "V02-REPLACE-TOKENWISE: replace_numbers_in_stream on every token script: every token kept or consumed exactly once, in order, by the replacement "
+    "of the occurrence covering it; replacements = the occurrences find_numbers reports. V02-TEXT-REWRITE: replace_numbers_in_text on texts composed "
+    "of word and separator classes (zero-width, no-break, BOM): result = tokens joined with the reported occurrences replaced; no-number texts identical. "
+    + MACHINE,
+    'Locality decided on complete bounded case tables: tokenizer lossless over all class strings, token-wise conservation of the stream rewriter over all '
+    'token scripts, text rewriting = tokenize + find + replace + join over composed texts.',
+    MACHINE + ' The abstract language of the scanner model stands for the seven interpreters (the scanner is generic over L).',
+    T_VM, 'DESIGN.md §10.3')
+reg('C03', 'other',
+    [_c03_sites, scanvm.rule_validator_entry, panics.rule_digit_args, progress.rule_loops, progress.rule_recursion, scanvm.rule_scanner_total,
+     scanvm.rule_occurrence_wellformed, scanvm.rule_replace_tokenwise, textvm.rule_tokenizer, dsvm.rule_builder_cases],
+    "B1 the complete inventory of panic-capable sites in the library MIR (Assert terminators + calls to partial callees) with each site discharged "
+    "by a dominating guard (difference-constraint prover over branch facts), constant call-site arguments, constant constructor input or a named "
+    "instance whose guards are checked; a site the prover cannot discharge is reported only if the bounded case tables of the abstract machine that "
+    "cover its function also reach a panic (otherwise it is listed as BOUNDED). V03: the stream entry points on every token script x thresholds "
+    "(NaN, inf, negative), text2digits for every answer of the group interpreter (an empty result is an error, never formatted), the tokenizer on all "
+    "class strings and the builder on all operation sequences reach no panic site. B2 every loop consumes from an iterator; recursion inventory = the "
+    "confirmed bounded set.",
+    'Totality as a site inventory (every panic-capable MIR site discharged by the prover, else covered by a panic-free bounded case table) plus loop / '
+    'recursion progress.',
+    'Trusted: std/daachorse/phf do not panic on valid arguments; allocation failure and stack exhaustion out of scope. BOUNDED discharges are weaker '
+    'than prover discharges and are marked as such in the evidence.',
+    'static analysis: MIR panic-site inventory + dominator/edge-fact prover, with abstract-machine case tables as bounded fallback; loop/recursion progress',
+    'DESIGN.md §10.3, §10.5, §2 B1 B2',
+    assumptions=['token iterators supplied by the caller are finite'])
+reg('C04', 'other',
+    [lexeval.rule_lex_ord, lexical.rule_group_ordinal, lexeval.rule_split_closure, builder.rule_frozen_first, lexeval.rule_sep_mark],
+    "A2 every core ordinal form and inflection of the reference lexicon (~750 forms), evaluated through apply, is accepted with the instruction of its "
+    "cardinal, receives the expected marker (get_morph_marker and the postlude are evaluated on the form) and freezes the builder where the language "
+    "does; A2b the group path (hyphen groups, compounds) carries digits, marker and freeze over; A3 closure of compound ordinal stems (thorough); B4 a "
+    "frozen builder refuses every further word; A5 format_and_value, evaluated, renders digits + marker with the value of the digits.",
+    'Ordinal mechanism decided by evaluating the interpreter source on ~750 ordinal forms and the formatter on marked builders.',
+    'Not decided: the composition for every rank (same limit as C01).', T_LEX, 'DESIGN.md §10.2')
+reg('C05', 'other',
+    [lexeval.rule_dec_table, lexeval.rule_sep_mark, scanvm.rule_decimal_scanner, dsvm.rule_builder_cases],
+    "A4 apply_decimal evaluated: en/de append each spoken digit with push (zero synonyms alike, anything else refused), the other languages read the "
+    "fraction with apply itself; A5 is_decimal_sep is true exactly on the separator word and format_decimal_and_value renders {int}<mark>{frac} with "
+    "leading zeros kept and value {int}.{frac}; V05 the scanner on every script over {number words, zero, separator, ordinal, ordinary word}: integer + "
+    "separator + fraction is one occurrence formatted from both builders, a separator without number before it, after an ordinal or with nothing usable "
+    "after it stays a word; V12 push appends its digits in every builder state. " + MACHINE,
+    'Decimal path decided by evaluation of the language functions and by the scanner\'s complete case table over decimal scripts.',
+    MACHINE, T_VM + '; ' + T_LEX, 'DESIGN.md §10.2, §10.3')
+reg('C06', 'other',
+    [scanvm.rule_occurrence_wellformed, lexeval.rule_sep_mark, scanvm.rule_decimal_scanner],
+    "V06 on every token script: spans inside the stream, strictly increasing, disjoint, begin and end on the first / last word the interpreter accepted "
+    "for that number; text and value are the two halves of one formatter result for the words inside the span; the ordinal flag is that of the integer "
+    "part. A5 the formatters, evaluated: digits, optional mark + digits, optional marker (es 1/n), value = reading of the digits. " + MACHINE,
+    'Occurrence well-formedness decided on the scanner\'s complete case tables plus evaluation of the per-language formatters.',
+    MACHINE + ' Float precision of huge values is not examined (the digit text is checked, the value only through the formatter).',
+    T_VM, 'DESIGN.md §10.3')
+reg('C07', 'other',
+    [lexeval.rule_reject_inert, builder.rule_fail_atomic, scanvm.rule_scanner_validator, scanvm.rule_validator_scanner],
+    "A8b every lexicon word x builder-state x {apply, apply_decimal}: an accepted word issues exactly one builder operation, a rejected word issues none, "
+    "writes no marker, does not freeze; B3 in every &mut self -> Result method of DigitString no write can be followed by an Err exit (a failed operation "
+    "changes nothing); V07 the scanner's case table: spans hold accepted / linking words only and end on an accepted word, a word rejected inside a number "
+    "is retried on an empty builder, at threshold 0 every number word is covered; exec_group and the scanner interpreted against the same abstract "
+    "language agree on every word script (each span validates to its text, each accepted script is one occurrence). " + MACHINE,
+    'Scanner/validator agreement decided as: rejected words are inert (evaluation over the lexicon), builder operations fail without side effect (MIR '
+    'reachability), and the two drivers agree on every script of an abstract language (case tables).',
+    MACHINE + ' Agreement on the real vocabularies follows only to the extent that they behave like the abstract language classes.',
+    T_VM + '; ' + T_LEX + '; MIR write-before-Err reachability', 'DESIGN.md §10.2, §10.3')
+reg('C08', 'other',
+    [lexeval.rule_neg_contexts, lexical.rule_block_contexts, lexeval.rule_flags_lifecycle, lexeval.rule_conj, lexeval.rule_zero_arm, dsvm.rule_builder_cases],
+    "A7 each unit / teen / tens / scale word, evaluated on the builder states in which the language forbids it (unit after a teen or tens, second "
+    "thousand, ordinal stems on a non-empty builder, pt without conjunction), is refused; A7b the flags a word stores block exactly the following words "
+    "of the grammar table and no others; A7c flags are stored on success, cleared on failure; A10 the conjunction is Incomplete only inside a number; "
+    "A6 zero is a plain put(0); V12 the builder accepts zeros only while the value is zero, keeps them, and refuses occupied positions.",
+    'No-fusion guards decided by evaluating apply on the forbidden and allowed contexts of the grammar tables; zero handling by the builder\'s case table.',
+    'Not decided: every pair of numbers below 100 in every language (the contexts are the grammar table\'s classes, not all 10^4 pairs).',
+    T_LEX + '; ' + T_VM, 'DESIGN.md §10.2, §10.4')
+reg('C09', 'other',
+    [scanvm.rule_lone_policy],
+    "V09 on every token script (length <= 4, 5 thorough) over {single-digit word, two-digit word, ordinal, linking word, ordinary word, comma, period} "
+    "and thresholds 0, 1, 10, 21, inf, NaN (+ 2, 100, -1 thorough): the recognised numbers are the same at every threshold; the reported occurrences "
+    "are exactly the recognised numbers minus those small (one digit or ordinal, value < t) and isolated (no same-kind number adjacent once non-breakers "
+    "are ignored); threshold 0 / NaN report all; what breaks a sequence is tabulated per token class (alphabetic non-linking word, lone period incl. "
+    "with Unicode spaces; not commas, digits, ellipses, linking words in any case). " + MACHINE,
+    'The hold/release policy compared, on the scanner\'s complete case tables, with the policy as the property states it.',
+    MACHINE, T_VM, 'DESIGN.md §10.3')
+reg('C10', 'other',
+    [scanvm.rule_fresh_start, scanner.rule_scratch_hygiene, dsvm.rule_builder_cases],
+    "V10 on every token script the first word after a finished number is offered to apply on an empty, non-ordinal integer builder in integer mode; "
+    "scripts A + [word word word .] + B give the occurrences of A then those of B at thresholds 0, 10, 100; punctuation keeps two numbers apart; "
+    "B7 typestate (path-sensitive): the scratch builder of each annotation pass is fresh whenever it is handed to apply; V12 reset() restores the state "
+    "of new() (all queries and fields). " + MACHINE,
+    'Context independence decided on the scanner\'s case tables (fresh start, A+separator+B) and by a typestate analysis of the scratch builders.',
+    MACHINE, T_VM + '; MIR typestate dataflow', 'DESIGN.md §10.3, §10.5')
+reg('C11', 'other',
+    [textflow.rule_case_flow, scanvm.rule_case_scanner, scanvm.rule_validator_entry],
+    "B9 no raw-case text (Token::text, &str parameters of the public API) reaches a vocabulary lookup, lemmatizer or interpreter without passing "
+    "through a lowercase conversion (taint flow over the call graph); V11 the scanner's case table is unchanged when every token text is upper-cased "
+    "(lowercase form kept); text2digits hands the lower-cased words to the group interpreter.",
+    'Case-insensitivity decided as a taint-flow rule plus the scanner case table under upper-casing.',
+    'Unicode special casing (ß, İ) is whatever str::to_lowercase does.', 'static analysis: MIR taint flow over the call graph; ' + T_VM, 'DESIGN.md §10.3, §2 B9')
+reg('C12', 'other',
+    [dsvm.rule_builder_cases, builder.rule_fail_atomic, builder.rule_frozen_first, _c12_sites],
+    "V12 every sequence of public building operations (35 operation instances x depth 2, 12 x depth 4; deeper in thorough) interpreted from the MIR of "
+    "the methods, all public queries evaluated after each step: rendering = ASCII digits of the reported length; an Err step changes no query result and "
+    "no field; a successful step keeps placed non-zero digits in order; put adds its digits into free positions or fails; put_digit_at adds d x 10^p; "
+    "shift(p) multiplies the rightmost p-digit group or an implicit 1 by 10^p; push appends; frozen refuses every mutator; zeros only while the value is "
+    "zero; reset = new; no panic. For all inputs (not bounded): B3 no write before a possible Err exit, B4 the frozen test dominates every write, B1 "
+    "every panic site of the public methods discharged for symbolic arguments (or BOUNDED).",
+    'Builder clauses decided by a bounded exhaustive case table of operation sequences (value semantics included) and, for all inputs, by MIR '
+    'reachability / dominance rules for failure atomicity, frozen-first and panic freedom.',
+    'The value clauses (place / shift arithmetic, digits kept) are bounded: sequences up to the stated depth over the argument alphabet.',
+    T_VM + '; MIR write-before-Err reachability, guard dominance, panic-site prover', 'DESIGN.md §10.4, §2 B1 B3 B4')
+reg('C13', 'proof',
+    [facadevm.rule_delegation_vm, facadevm.rule_constructors_vm, facadevm.rule_iso_vm, facade.rule_no_downcast],
+    "Decides the whole statement. C-DELEGATION: every trait method a concrete interpreter defines is defined by the facade, and for each (method, "
+    "variant) the facade's MIR, interpreted with opaque arguments, makes exactly one call — the same-named method of that variant's interpreter with its "
+    "own arguments in order — and returns its result unchanged (56 obligations). C-CTOR: Language::x() is variant X holding <X as Default>::default(); "
+    "X::new() is the same value. C-ISO: get_interpreter_for interpreted with a symbolic code that supports only comparison with literals: the complete "
+    "case table (each literal + a string equal to none) maps the seven codes to their languages and everything else to None. C-NO-DOWNCAST. Since every "
+    "API function is generic over L: LangInterpreter and reaches the language only through trait methods, facade and concrete type perform identical calls.",
+    'Proof by complete case analysis: 56 (method, variant) delegation obligations, 14 constructor obligations and the complete case table of the code '
+    'function, each obtained by interpreting the function\'s MIR with opaque / symbolic arguments.',
+    'Trusted: rustc name resolution and MIR, the abstract machine, the frozen ISO 639-1 table. Closed world: user-written interpreters are outside the claim.',
+    'static analysis: abstract interpretation of the facade\'s MIR with opaque arguments (complete case table per method x variant) + inventory rules',
+    'DESIGN.md §10.6', trusted=['ISO 639-1 table frozen in rules/facade.py'])
+reg('C14', 'proof',
+    [stateless.rule_types, stateless.rule_statics, stateless.rule_effects],
+    "Decides the whole statement modulo dependencies. (i) the seven interpreters and Language are Freeze, Send and Sync according to rustc's trait "
+    "solver; every LangInterpreter method takes &self; (ii) no static mut, no interior-mutable or thread-local static, no user-written unsafe; (iii) "
+    "the complete callee inventory of the library MIR contains no effectful callee (std::io incl. _print/_eprint, fs, env, time, process, net, thread, "
+    "sync, cell, rand, raw pointers, FFI) and no indirect or unclassified call.",
+    'Proof modulo dependencies: trait-solver obligations, static/unsafe inventory and a complete effect inventory of the library MIR.',
+    'Trusted: std, phf, daachorse, bitflags keep no hidden global state and do not print on the calls made; the callee classification table.',
+    'static analysis: trait-solver obligations (Freeze/Send/Sync) + whole-crate MIR effect inventory + static/unsafe inventory', 'DESIGN.md §2 Family C',
+    trusted=['std / phf / daachorse / bitflags bodies keep no hidden global state and do not print on the calls made'])
+reg('C15', 'other',
+    [scanvm.rule_lazy_batch, scanvm.rule_token_hints],
+    "V15 on every token script (15 token classes incl. hinted ones, length <= 3, 4 thorough; thresholds 10 and 0) find_numbers_iter — constructed, then "
+    "Iterator::next interpreted call by call on the same object — yields exactly the occurrences of find_numbers, in order, then None (and None again); "
+    "nothing is read before the first next() (also for NaN / inf / negative thresholds); when it returns a number it has not read beyond the end of the "
+    "second number after it (scripts up to length 5-6 over a small alphabet). A token flagged not-a-number-part is never handed to the interpreter and "
+    "never inside an occurrence; a token flagged separated is never in the same occurrence as its predecessor and the result equals that of the script "
+    "with a comma token inserted. " + MACHINE,
+    'Lazy/batch agreement, bounded look-ahead and both token hints decided on complete case tables of the two drivers over all token scripts.',
+    MACHINE, T_VM, 'DESIGN.md §10.3')
+reg('C16', 'other',
+    [lexeval.rule_zero_arm, lexical.rule_zero_invariance, dsvm.rule_builder_cases],
+    "A6 the zero words issue put(0) whatever the builder holds; A9b for every core cardinal word, scale-word context and group path, apply evaluated on a "
+    "builder with 1, 3, 6 leading zeros decides and instructs exactly as with none; V12 the builder counts a zero only while the value is zero, keeps the "
+    "zeros in rendering / length / emptiness, refuses a zero after a non-zero digit.",
+    'Leading zeros decided by evaluation (zeros never change how the next word is read) and by the builder\'s case table (zeros kept, never appended).',
+    'Not decided: the scanner-level split of "n zero" for every language (covered for the abstract language by C07/C15 tables).',
+    T_LEX + '; ' + T_VM, 'DESIGN.md §10.2, §10.4')
+reg('C17', 'other',
+    [textflow.rule_ws_api, textvm.rule_tokenizer, scanvm.rule_ws_scanner, scanvm.rule_validator_entry],
+    "B10 no ASCII-only whitespace facility anywhere in the library (call and fn-item inventory); V02-TOKENIZER separators are maximal non-alphanumeric "
+    "runs for every class string incl. 2- and 3-byte spaces; V17 the scanner's case table is unchanged when whitespace tokens are replaced by other "
+    "Unicode whitespace, when whitespace tokens are added at either end, and when the whitespace glued to punctuation tokens changes; text2digits splits "
+    "on Unicode whitespace (NBSP, thin, ideographic space) and ignores leading / trailing whitespace.",
+    'Whitespace-insensitivity decided by an API inventory plus case tables of tokenizer, scanner and validator entry under whitespace substitution.',
+    MACHINE, 'static analysis: callee inventory; ' + T_VM, 'DESIGN.md §10.3')
+reg('C18', 'other',
+    [lexeval.rule_o_annotate, lexeval.rule_zero_arm, lexeval.rule_dec_table, scanner.rule_scratch_hygiene, scanvm.rule_token_hints],
+    "A-O-ANNOTATE English::basic_annotate evaluated on a table of neighbour combinations (number word / ordinary word / punctuation / text boundary, any "
+    "Unicode whitespace between): 'o' is marked exactly when neither nearest non-whitespace token is a number word, nothing else is ever marked, 'o' "
+    "behaves as 'zero' in apply and apply_decimal; B7 the scratch builder is fresh at each apply; V15 marked tokens are skipped by the scanner.",
+    'The neighbour test decided by evaluating the annotation pass on a table of neighbour classes; the skip by the scanner\'s case table.',
+    'The neighbour table lists classes of neighbours, not every English word.', T_LEX + '; ' + T_VM, 'DESIGN.md §10.2')
